@@ -20,6 +20,7 @@ type c08Case struct {
 	Cmd    string   `json:"cmd"` // update | format | compare | compare-github
 	Orders [][]int  `json:"orders"`
 	Leak   string   `json:"leak,omitempty"` // "", stash, definition, flags
+	Fresh  int      `json:"fresh,omitempty"` // compare only: this many units (in walk order) are updated first, so that stale and current rules are mixed
 	Pad    int      `json:"pad,omitempty"`  // 1, 2: chain offsets in file names are written with leading zeros; 3: offset 0 is written as -chain0
 }
 
@@ -27,6 +28,14 @@ var reCompareBlock = regexp.MustCompile(`(?m)^Regex of (\d{6}) has (not changed|
 
 // compareBlocks splits compare's stdout into one block per rule.
 func compareBlocks(out string) []string {
+	// the closing summary of --all in github mode is not part of any rule's report
+	var keep []string
+	for _, l := range strings.Split(out, "\n") {
+		if !strings.Contains(l, "All rules need to be up to date") {
+			keep = append(keep, l)
+		}
+	}
+	out = strings.Join(keep, "\n")
 	idx := reCompareBlock.FindAllStringIndex(out, -1)
 	var bs []string
 	for i, loc := range idx {
@@ -52,7 +61,7 @@ func c08Check(env *core.Env, cc core.Case) core.Verdict {
 			delete(tree, "regex-assembly/"+t.Key+".ra")
 		}
 	}
-	v := core.Verdict{Status: core.Held, Features: []string{"cmd:" + c.Cmd, "leak:" + c.Leak, fmt.Sprintf("files:%d", len(targets)), fmt.Sprintf("offset-spelling:%d", c.Pad)}, Counts: map[string]int{}}
+	v := core.Verdict{Status: core.Held, Features: []string{"cmd:" + c.Cmd, "leak:" + c.Leak, fmt.Sprintf("files:%d", len(targets)), fmt.Sprintf("offset-spelling:%d", c.Pad), fmt.Sprintf("updated-first:%v", c.Fresh > 0)}, Counts: map[string]int{}}
 	mk := func(name string) (string, error) {
 		root := filepath.Join(sandbox, name, "crs")
 		_ = os.MkdirAll(filepath.Join(root, "regex-assembly", "include"), 0o755)
@@ -90,6 +99,12 @@ func c08Check(env *core.Env, cc core.Case) core.Verdict {
 		allArgs = []string{"-o", "github", "regex", "compare", "--all"}
 		single = func(key string) []string { return []string{"-o", "github", "regex", "compare", key} }
 	}
+	fresh := func(root string) {
+		for i := 0; i < c.Fresh && i < len(targets); i++ {
+			_ = cli(env, root, nil, "regex", "update", c.spell(targets[i]))
+		}
+	}
+	fresh(rootA)
 	ra_ := cli(env, rootA, nil, allArgs...)
 	if ra_.Class() == sut.ClassTimeout {
 		return core.Incon("watchdog hit, not judged: %s", describe(ra_))
@@ -114,6 +129,7 @@ func c08Check(env *core.Env, cc core.Case) core.Verdict {
 		if err != nil {
 			return core.Incon("cannot write tree: %v", err)
 		}
+		fresh(rootB)
 		var outs []string
 		anyFail := false
 		failedUnit := ""
@@ -244,6 +260,9 @@ func c08Gen(rng *rand.Rand, i int) *c08Case {
 			c.Pad = 3
 		}
 	}
+	if strings.HasPrefix(c.Cmd, "compare") && c.Leak == "" && (i/4)%2 == 0 {
+		c.Fresh = 1 + rng.Intn(len(targets))
+	}
 	n := len(targets)
 	if c.Cmd == "format" {
 		n += len(p.Includes)
@@ -258,7 +277,7 @@ func init() {
 	register(&core.Property{
 		ID:    "C08",
 		Level: "exploration",
-		Rule: "generated CRS trees with 2..n assembly files (sharing stored-expression name st1 and definition name d1, different flags/prefixes/suffixes, chain offsets, include and include-except users, cmdline blocks) are copied; copy A gets update / format / compare (text and github) --all, copies B1..B3 get the same command once per file in three PRNG-chosen orders. A part of the trees spell chain offsets in file names with leading zeros or as -chain0. A quarter of the trees each carry a leak construction: the last file in walk order appends a stored name that only the first file stores (must fail like the single invocation does), references a definition that only the first file makes, or follows a file with flags, prefix and suffix. " +
+		Rule: "generated CRS trees with 2..n assembly files (sharing stored-expression name st1 and definition name d1, different flags/prefixes/suffixes, chain offsets, include and include-except users, cmdline blocks) are copied; copy A gets update / format / compare (text and github) --all, copies B1..B3 get the same command once per file in three PRNG-chosen orders. For half of the compare cases some rules are updated first, so that current and stale rules are mixed. A part of the trees spell chain offsets in file names with leading zeros or as -chain0. A quarter of the trees each carry a leak construction: the last file in walk order appends a stored name that only the first file stores (must fail like the single invocation does), references a definition that only the first file makes, or follows a file with flags, prefix and suffix. " +
 			"Oracle: the snapshot of A equals the snapshot of every B (for compare: the multiset of per-rule report blocks, and in github mode failure iff any single invocation fails); exit status of --all non-zero iff a single invocation fails. Non-trivial = >= 2 addressable files.",
 		Cases: func(env *core.Env, rng *rand.Rand) []core.Case {
 			n := env.N(300, 3000)
